@@ -38,6 +38,12 @@ def NObj.fit (o : NObj) (y : List Val) (origin : Int) : Except Err NObj :=
     let assignsSp := (o.st == .last && o.sp != 1) || o.st == .mean
     .ok { o with y, origin, wl_ := w, sp_ := if assignsSp then o.sp.toNat else o.sp_, fitted := true }
 
+/-- a fit whose rejection is swallowed by the caller (the earlier life of the object) -/
+def NObj.fitOrKeep (o : NObj) (y : List Val) (origin : Int) : NObj :=
+  match o.fit y origin with
+  | .ok b => b
+  | .error _ => o
+
 /-- the period `_predict_last_window` works with: `self.sp == 1` is tested on the parameter, otherwise `self.sp_` -/
 def NObj.spEff (o : NObj) : Nat := if o.sp = 1 then 1 else o.sp_
 
@@ -60,9 +66,7 @@ fit on `y`, predict -/
 def naiveHistory (st0 : Strategy) (sp0 : Int) (wl0 : Option Int) (y0 : List Val) (o0 : Int)
     (st : Strategy) (sp : Int) (wl : Option Int) (y : List Val) (origin : Int) (raw : FH.Raw) (rel : Bool) :
     Except Err (List (Int × Val)) :=
-  let a := NObj.new st0 sp0 wl0
-  let b := match a.fit y0 o0 with | .ok b => b | .error _ => a
-  match (b.setParams st sp wl).fit y origin with
+  match (((NObj.new st0 sp0 wl0).fitOrKeep y0 o0).setParams st sp wl).fit y origin with
   | .error e => .error e
   | .ok c => c.predict raw rel
 
@@ -88,6 +92,11 @@ def TObj.fit (o : TObj) (y : List Val) (origin : Int) : Except Err TObj :=
     | .ok _ => if y.any (·.isNone) then .error .value
                else .ok { o with pipe := some (o.degree, o.bias), y, origin }
 
+def TObj.fitOrKeep (o : TObj) (y : List Val) (origin : Int) : TObj :=
+  match o.fit y origin with
+  | .ok b => b
+  | .error _ => o
+
 /-- `predict(fh)` with the default regressor, pipeline degree ≤ 1 -/
 def TObj.predict (o : TObj) (raw : FH.Raw) (rel : Bool) : Except Err (List (Int × Val)) :=
   match o.pipe with
@@ -103,8 +112,6 @@ def TObj.designs (o : TObj) (raw : FH.Raw) (rel : Bool) :
 
 def trendHistory (d0 : Nat) (b0 : Bool) (y0 : List Val) (o0 : Int) (d : Nat) (b : Bool) (y : List Val) (origin : Int) :
     Except Err TObj :=
-  let a := TObj.new d0 b0
-  let a' := match a.fit y0 o0 with | .ok x => x | .error _ => a
-  (a'.setParams d b).fit y origin
+  (((TObj.new d0 b0).fitOrKeep y0 o0).setParams d b).fit y origin
 
 end SkVerif.History
